@@ -10,6 +10,12 @@ through the ops of `lean/Driver/SerializerOps.lean`.
 (b) `to_html_string`, `to_xhtml_string`  vs  op `ser` on n/10 random trees: tags from a small list (void tags, script/
     style, mixed case, a few non-ASCII), Comment / ProcessingInstruction / `None`-tag / QName nodes (well-formed and
     malformed QNames: the `ValueError` of the code is `err` of the model), hostile text / tail / attribute strings.
+    Plus, on every run, one small tree per NAME NEAR THE VOID SET (`near_void_trees`): every name of the HTML void list
+    (`xml.etree.ElementTree.HTML_EMPTY`, the set the model's `isVoid` transcribes) in three spellings, and the names that
+    other "void element" tables add or that differ from a void name by a letter (`command keygen menuitem bgsound
+    nextid spacer image menu basefon framee colgroup ...`), each once empty and once with text, an attribute, a child
+    and a tail, below a parent: a serializer whose void table has an entry more or less writes `<x />` / drops the
+    content / omits the end tag for exactly one of these.  A quarter of the random trees draw their tags from this list.
 (c) model-internal sanity of the spec ops on the same trees: when `wf` says 1, `read fmt (ser fmt t)` = `canon t`.
 
 Outside the domain of the model (never generated): a Comment / PI whose `text` is `None` (the code raises `TypeError`,
@@ -41,6 +47,14 @@ EXTRA_CHARS = ['İ', 'ı', 'é', 'σ', 'G', 'F', 'Z', '1', 'b', 'e', '-', '_', '
 TAGS = ['div', 'p', 'span', 'em', 'a', 'pre', 'code', 'h1', 'x-y', 'ns:t', 'br', 'hr', 'img', 'input', 'BR', 'Img', 'HR',
         'script', 'style', 'SCRIPT', 'Style', 'ſtyle', 'İmg', 'b.r', 'link']
 KEYS = ['class', 'id', 'href', 'title', 'checked', 'data-x', 'alt', 'src', 'Zeta', 'alpha', 'é', 'a', 'ab', 'a-b', 'A']
+# the void list of the HTML serializer, as a literal (NOT imported from the code under test) ...
+VOID_NAMES = ['area', 'base', 'basefont', 'br', 'col', 'embed', 'frame', 'hr', 'img', 'input', 'isindex', 'link', 'meta', 'param',
+              'source', 'track', 'wbr']
+# ... and names that are NOT in it: entries of other void-element tables, obsolete empty elements, one-letter neighbours
+NEAR_VOID = ['command', 'keygen', 'menuitem', 'bgsound', 'nextid', 'spacer', 'image', 'menu', 'nobr', 'picture', 'audio', 'video', 'object',
+             'colgroup', 'frameset', 'iframe', 'noframes', 'textarea', 'button', 'select', 'option', 'basefon', 'basefonts', 'are', 'areas',
+             'bas', 'bases', 'b', 'brr', 'cols', 'co', 'embeds', 'framee', 'fram', 'h', 'hrr', 'im', 'imgs', 'inputs', 'inpu', 'isindexx',
+             'links', 'lin', 'metas', 'met', 'params', 'para', 'sources', 'sourc', 'tracks', 'trac', 'wb', 'wbrr', 'data', 'slot', 'template']
 QNAMES = ['{http://www.w3.org/1999/xhtml}div', '{u}br', '{}p', '{a"b&c\n<}em', '{u}script', 'nobrace', '{unclosed', '',
           '{u}}x', '{&amp;}img']
 
@@ -90,14 +104,30 @@ def rand_tree(rng, depth=0):
     if r < 0.30:
         return T('q', rng.choice(QNAMES), rand_opt(rng), tail=rand_opt(rng), attrs=rand_attrs(rng), children=kids)
     tag = rng.choice(TAGS)
+    if rng.random() < 0.25:
+        tag = rng.choice(VOID_NAMES + NEAR_VOID[:9] * 2)
+        if rng.random() < 0.2: tag = rng.choice([tag.upper(), tag.capitalize()])
     low = tag.lower()
-    if low in ('br', 'hr', 'img', 'input', 'link') and rng.random() < 0.8:
+    if low in VOID_NAMES and rng.random() < 0.8:
         return T('n', tag, None if rng.random() < 0.8 else rand_opt(rng), tail=rand_opt(rng), attrs=rand_attrs(rng))
     if low in ('script', 'style') and rng.random() < 0.8:
         txt = rand_opt(rng)
         if txt and rng.random() < 0.7: txt = txt.replace('<', '(')
         return T('n', tag, txt, tail=rand_opt(rng), attrs=rand_attrs(rng))
     return T('n', tag, rand_opt(rng), tail=rand_opt(rng), attrs=rand_attrs(rng), children=kids)
+
+
+def near_void_trees():
+    """deterministic: for each name around the void set a parent holding one with content, an empty one and one with a child only"""
+    out = []
+    names = []
+    for v in VOID_NAMES: names += [v, v.upper(), v.capitalize()]
+    for v in NEAR_VOID: names += [v] + ([v.upper(), v.capitalize()] if v in ('command', 'keygen', 'menuitem') else [])
+    for nm in names:
+        full = T('n', nm, 'Save ', tail='!', attrs=[('label', 'save')], children=[T('n', 'b', 'now', tail=' & then')])
+        out.append(T('n', 'menu', 'm', attrs=[('type', 'context')],
+                     children=[full, T('n', 'hr', None, tail='end'), T('n', nm, None, attrs=[('id', 'e')]), T('n', nm, None, children=[T('n', 'i', None)])]))
+    return out
 
 
 def _kinds(t, c):
@@ -182,8 +212,7 @@ def run(driver, rng, n):
     kinds = Counter()
     trees = []
     tseen = set()
-    for _ in range(max(1, n // 10)):
-        t = rand_tree(rng)
+    for t in near_void_trees() + [rand_tree(rng) for _ in range(max(1, n // 10))]:
         enc = enc_tree(t)
         if enc in tseen:
             dist['duplicate_inputs'] += 1
